@@ -9,6 +9,7 @@ CONSTANTS
   ResultFirst = TRUE
   OwnCaseNumber = TRUE
   ParserStripsParens = TRUE
+  Transient = FALSE
   CrashInHeader = FALSE
 INVARIANT TypeOK
 INVARIANT C18_RestartCompletes
